@@ -11,6 +11,7 @@ T     : Trace_Generations.tla over the merged hook logs (gen_begin / libclang / 
 import json
 import os
 import random
+import shutil
 import subprocess
 
 import common as C
@@ -104,8 +105,15 @@ def baseline(w, inputs):
     for i, inp in enumerate(inputs):
         jf = os.path.join(w, "base%d.json" % i)
         outp = os.path.join(w, "base%d.rs" % i)
+        args = list(inp["args"])
+        if "--clang-macro-fallback-build-dir" in args:
+            # "fresh" includes the disk: the reference generation gets an empty build directory of its own
+            k = args.index("--clang-macro-fallback-build-dir")
+            args[k + 1] = os.path.join(w, "fallback-fresh-%d" % i)
+            shutil.rmtree(args[k + 1], ignore_errors=True)
+            os.makedirs(args[k + 1])
         with open(jf, "w") as f:
-            json.dump({"threads": 1, "jobs": [{"id": inp["name"], "args": inp["args"], "callbacks": inp["callbacks"],
+            json.dump({"threads": 1, "jobs": [{"id": inp["name"], "args": args, "callbacks": inp["callbacks"],
                                                  "out": outp}]}, f)
         p = subprocess.run([C.BVDRIVE, "run", jf], stdout=subprocess.PIPE, stderr=subprocess.PIPE, text=True,
                            cwd=C.TESTS_CWD, timeout=600)
